@@ -25,6 +25,10 @@ try:
     rc, out = sh(["git", "-C", "/repo", "worktree", "add", "--detach", wt, "HEAD"])
     assert rc == 0, out
     rc, out = sh(["git", "-C", wt, "apply", os.path.join(d, "patch.diff")])
+    if rc != 0:
+        # /repo has moved since the change was written: fall back to a 3-way merge of the patch
+        rc, out = sh(["git", "-C", wt, "apply", "--3way", os.path.join(d, "patch.diff")])
+        res["applied_with_3way"] = rc == 0
     res["applies"] = rc == 0
     if rc != 0:
         res["apply_error"] = out[-500:]
